@@ -1,6 +1,6 @@
 use crate::{
     Chunk, DebugInfo, FunctionFlags, Op, StringFormatFlags,
-    frame::{Arg, AssignedOrReserved, Frame, FrameError, OpenTry},
+    frame::{Arg, AssignedOrReserved, Frame, FrameError, OpenBuilder, OpenTry},
 };
 use circular_buffer::CircularBuffer;
 use derive_name::VariantName;
@@ -584,6 +584,7 @@ impl Compiler {
                     }
 
                     self.compile_early_try_exits(self.loop_exit_try_depth(), ctx)?;
+                    self.compile_discard_open_builders(self.loop_exit_builder_depth())?;
                     self.push_op(Jump, &[]);
                     self.push_loop_jump_placeholder()?;
 
@@ -600,6 +601,7 @@ impl Compiler {
                         self.push_op(SetNull, &[result_register]);
                     }
                     self.compile_early_try_exits(self.loop_exit_try_depth(), ctx)?;
+                    self.compile_discard_open_builders(self.loop_exit_builder_depth())?;
                     self.push_jump_back_op(JumpBack, &[], loop_start_ip)?;
 
                     CompileNodeOutput::none()
@@ -785,6 +787,8 @@ impl Compiler {
                 }
                 self.compile_early_try_exits(0, ctx)?;
             }
+            // Sequences and strings that are under construction are abandoned by the return
+            self.compile_discard_open_builders(0)?;
 
             match ctx.result_register {
                 ResultRegister::Any => {
@@ -811,6 +815,8 @@ impl Compiler {
             if leaves_try_expressions {
                 self.compile_early_try_exits(0, ctx)?;
             }
+            // Sequences and strings that are under construction are abandoned by the return
+            self.compile_discard_open_builders(0)?;
 
             let result = self.assign_result_register(ctx)?;
             match result.register {
@@ -2260,6 +2266,42 @@ impl Compiler {
         Ok(())
     }
 
+    // Compiles the cleanup of sequences and strings that are under construction when they're left
+    // early by `break`, `continue`, or `return`, e.g. `[1, (if x then return else 2)]`.
+    //
+    // The builders above `exit_depth` are finished into a scratch register, innermost first.
+    fn compile_discard_open_builders(&mut self, exit_depth: usize) -> Result<()> {
+        let open_builders = self.frame().open_builders();
+        if open_builders.len() <= exit_depth {
+            return Ok(());
+        }
+
+        let abandoned: SmallVec<[OpenBuilder; 4]> =
+            open_builders[exit_depth..].iter().rev().copied().collect();
+
+        let scratch_register = self.push_register()?;
+        for builder in abandoned {
+            match builder {
+                OpenBuilder::Sequence => {
+                    self.push_op_without_span(Op::SequenceToTuple, &[scratch_register])
+                }
+                OpenBuilder::String => {
+                    self.push_op_without_span(Op::StringFinish, &[scratch_register])
+                }
+            }
+        }
+        self.pop_register()?;
+
+        Ok(())
+    }
+
+    fn loop_exit_builder_depth(&self) -> usize {
+        match self.frame().current_loop() {
+            Some(loop_info) => loop_info.open_builders,
+            None => self.frame().open_builders().len(),
+        }
+    }
+
     fn loop_exit_try_depth(&self) -> usize {
         match self.frame().current_loop() {
             Some(loop_info) => loop_info.open_try_expressions,
@@ -2774,6 +2816,7 @@ impl Compiler {
                     _ => {
                         if result.register.is_some() {
                             self.push_op(Op::StringStart, &[]);
+                            self.frame_mut().push_builder(OpenBuilder::String);
                             // Limit the size hint to u32::MAX, u64 size hinting can be added later if
                             // it would be useful in practice.
                             self.push_var_u32(size_hint as u32);
@@ -2836,6 +2879,7 @@ impl Compiler {
                         }
 
                         if let Some(result_register) = result.register {
+                            self.frame_mut().pop_builder();
                             self.push_op(Op::StringFinish, &[result_register]);
                         }
                     }
@@ -2895,6 +2939,7 @@ impl Compiler {
 
             self.push_op(SequenceStart, &[]);
             self.push_var_u32(size_hint);
+            self.frame_mut().push_builder(OpenBuilder::Sequence);
 
             match elements {
                 [] => {}
@@ -2934,6 +2979,7 @@ impl Compiler {
 
             // Now that the elements have been added to the sequence builder,
             // add the finishing op.
+            self.frame_mut().pop_builder();
             self.push_op(finish_op, &[result_register]);
         } else {
             // Compile the element nodes for side-effects
